@@ -54,7 +54,7 @@ _RG = ["rg_rely_reflexive_transitive", "rg_safety_lemmas", "rg_alloc", "rg_incre
        "rg_increment_strong_unguarded", "rg_is_not_destructed", "rg_decrement_strong_noguard", "rg_decrement_strong_guard", "rg_try_destruct",
        "rg_increment_weak_owner", "rg_increment_weak_protected", "rg_decrement_weak_noguard", "rg_decrement_weak_guard", "rg_try_dealloc", "rg_dealloc_frees"]
 PROPS["RG"] = dict(   # development aid: all L1 R/G contracts at once (not a property)
-    title="(dev) all count-word R/G contracts", level="proof", modules=["utils_rg_h.rs", "internal_h.rs"], contract_groups=[],
+    title="(dev) all count-word R/G contracts", level="proof", modules=["utils_rg_h.rs", "internal_cut_h.rs"], contract_groups=[],
     kani=dict(quick=["utils_rg_h.rs::" + h for h in _RG]),
     stubbed_harnesses=(), trusted_base=[A_TOOLS, A_SC, A_RG, A_EBR, A_RANGE],
     kani_flags=["--no-assertion-reach-checks"],
@@ -66,7 +66,7 @@ _C10 = ["c10_new_many_0", "c10_new_many_1", "c10_new_many_2", "c10_new_many_3", 
         "c10_weak_many_0", "c10_weak_many_1", "c10_weak_many_3", "c10_weak_many_8"]
 _C19 = ["c19_rc", "c19_snapshot"]
 PROPS["L2S"] = dict(
-    title="(dev) all strong.rs L2 contracts", level="proof", modules=["utils_rg_h.rs", "internal_h.rs", "strong_h.rs"], contract_groups=[],
+    title="(dev) all strong.rs L2 contracts", level="proof", modules=["utils_rg_h.rs", "internal_cut_h.rs", "strong_h.rs"], contract_groups=[],
     kani=dict(quick=["strong_h.rs::" + h for h in _C08 + _L2S + _C10 + _C19 + ["c11_rc_snapshot_tags"]]),
     trusted_base=[A_TOOLS], kani_flags=["--no-assertion-reach-checks"],
 )
@@ -74,14 +74,14 @@ PROPS["L2S"] = dict(
 _C09 = ["c09_compare_exchange", "c09_compare_exchange_weak", "c09_compare_exchange_tag", "c09_load_store_swap", "c09_drop_from_get_mut"]
 _L2W = ["l2_weak_ledger", "c05_weak_upgrade", "c05_wsnap_upgrade", "c11_weak_tags"]
 PROPS["L2W"] = dict(
-    title="(dev) all weak.rs L2 contracts", level="proof", modules=["utils_rg_h.rs", "internal_h.rs", "weak_h.rs"], contract_groups=[],
+    title="(dev) all weak.rs L2 contracts", level="proof", modules=["utils_rg_h.rs", "internal_cut_h.rs", "weak_h.rs"], contract_groups=[],
     kani=dict(quick=["weak_h.rs::" + h for h in _C09 + _L2W]),
     trusted_base=[A_TOOLS], kani_flags=["--no-assertion-reach-checks"],
 )
 
 _DISP = ["dispose_chain_level", "dispose_leaf_any_depth", "dispose_null", "dispose_entry", "c06_chain_induction_step"]
 PROPS["DISP"] = dict(
-    title="(dev) dispose_general_node one-level contracts", level="proof", modules=["utils_state_h.rs", "utils_dispose_h.rs", "internal_h.rs"], contract_groups=["state", "modular"],
+    title="(dev) dispose_general_node one-level contracts", level="proof", modules=["utils_state_h.rs", "utils_dispose_h.rs", "internal_cut_h.rs"], contract_groups=["state", "modular"],
     kani=dict(quick=["utils_dispose_h.rs::" + h for h in _DISP]),
     trusted_base=[A_TOOLS], kani_flags=["--no-assertion-reach-checks"],
 )
@@ -99,8 +99,8 @@ _RG_STRONG = ["rg_alloc", "rg_increment_strong_owner", "rg_increment_strong_prot
               "rg_is_not_destructed", "rg_decrement_strong_noguard", "rg_decrement_strong_guard", "rg_try_destruct"]
 _RG_WEAK = ["rg_increment_weak_owner", "rg_increment_weak_protected", "rg_decrement_weak_noguard", "rg_decrement_weak_guard",
             "rg_try_dealloc", "rg_dealloc_frees"]
-_DISP_CORE = ["dispose_chain_level", "dispose_leaf_any_depth", "dispose_null", "dispose_entry"]
-_MODS_ALL = ["utils_state_h.rs", "utils_rg_h.rs", "utils_dispose_h.rs", "internal_h.rs", "strong_h.rs", "weak_h.rs"]
+_DISP_CORE = ["dispose_chain_level", "dispose_null_edge_then_child", "dispose_leaf_any_depth", "dispose_null", "dispose_entry"]
+_MODS_ALL = ["utils_state_h.rs", "utils_rg_h.rs", "utils_dispose_h.rs", "internal_cut_h.rs", "strong_h.rs", "weak_h.rs"]
 _FAST = ["--no-assertion-reach-checks", "--no-assert-contracts"]
 _L1_FUNCS = ["RcInner::{alloc,dealloc,increment_strong,is_not_destructed,decrement_strong,try_destruct,increment_weak,decrement_weak,try_dealloc}",
              "dispose", "dispose_general_node (one level: chain node at depth 1023 + leaf at symbolic depth)"]
@@ -186,7 +186,7 @@ PROPS["C02"] = dict(
 )
 PROPS["C06"] = dict(
     title="reclaiming a linked structure needs grace periods independent of its length", level="proof",
-    modules=["utils_state_h.rs", "utils_dispose_h.rs", "internal_h.rs"], contract_groups=["state", "modular"],
+    modules=["utils_state_h.rs", "utils_dispose_h.rs", "internal_cut_h.rs"], contract_groups=["state", "modular"],
     kani=dict(quick=_h("utils_dispose_h.rs", _DISP_CORE + ["c06_chain_induction_step"]) + _h("utils_state_h.rs", ["c12_window_theorem", "c12_modular_max3"])),
     kani_flags=_FAST, loops=_STUTTER + "; recursion of dispose_general_node: never unwound - cut by the code's own depth >= 1024 branch (chain node at depth 1023) and by a leaf at symbolic depth; the argument over chain length is the induction lemma c06_chain_induction_step",
     functions_under_contract=["dispose_general_node", "dispose", "Modular::{le,max}"],
@@ -197,7 +197,7 @@ PROPS["C06"] = dict(
 )
 PROPS["C07"] = dict(
     title="destroying long or deep structures never overflows the stack", level="proof",
-    modules=["utils_state_h.rs", "utils_dispose_h.rs", "internal_h.rs"], contract_groups=["state", "modular"],
+    modules=["utils_state_h.rs", "utils_dispose_h.rs", "internal_cut_h.rs"], contract_groups=["state", "modular"],
     kani=dict(quick=_h("utils_dispose_h.rs", _DISP_CORE + ["c06_chain_induction_step"])),
     kani_flags=_FAST, loops=_STUTTER,
     functions_under_contract=["dispose_general_node", "dispose"],
@@ -207,7 +207,7 @@ PROPS["C07"] = dict(
 )
 PROPS["C08"] = dict(
     title="AtomicRc is a linearizable (pointer, tag) cell with exact ownership transfer", level="proof",
-    modules=["utils_rg_h.rs", "internal_h.rs", "strong_h.rs"], contract_groups=[],
+    modules=["utils_rg_h.rs", "internal_cut_h.rs", "strong_h.rs"], contract_groups=[],
     kani=dict(quick=_h("strong_h.rs", _C08)),
     kani_flags=_FAST, loops=_STUTTER,
     functions_under_contract=["AtomicRc::{new,null,load,store,swap,compare_exchange,compare_exchange_weak,compare_exchange_tag,take,drop,from}", "Tagged<RcInner<T>>::with_timestamp"],
@@ -219,7 +219,7 @@ PROPS["C08"] = dict(
 )
 PROPS["C09"] = dict(
     title="AtomicWeak is a linearizable (pointer, tag) cell with exact ownership transfer", level="proof",
-    modules=["utils_rg_h.rs", "internal_h.rs", "weak_h.rs"], contract_groups=[],
+    modules=["utils_rg_h.rs", "internal_cut_h.rs", "weak_h.rs"], contract_groups=[],
     kani=dict(quick=_h("weak_h.rs", _C09)),
     kani_flags=_FAST, loops=_STUTTER,
     functions_under_contract=["AtomicWeak::{null,load,store,swap,compare_exchange,compare_exchange_weak,compare_exchange_tag,get_mut,drop,from}"],
@@ -230,8 +230,8 @@ PROPS["C09"] = dict(
 )
 PROPS["C10"] = dict(
     title="bulk constructors hand out exactly the advertised number of owners", level="proof",
-    modules=["utils_rg_h.rs", "internal_h.rs", "strong_h.rs"], contract_groups=[],
-    kani=dict(quick=_h("strong_h.rs", _C10) + _h(_RGF, ["rg_alloc", "rg_increment_weak_owner"])),
+    modules=["utils_rg_h.rs", "internal_cut_h.rs", "strong_h.rs"], contract_groups=[],
+    kani=dict(quick=_h("strong_h.rs", _C10) + _h(_RGF, ["rg_alloc", "rg_increment_weak_owner", "rg_decrement_strong_noguard", "rg_decrement_strong_guard"])),
     kani_flags=_FAST,
     loops="new_many / weak_many array construction: N in {0,1,2,3,8} fully unwound (unwind 10, assertions on); NewRcIter::next/drop/abort are loop-free over symbolic `remain` (every prefix and count follow by induction on calls)",
     functions_under_contract=["Rc::{new_many,new_many_iter,weak_many}", "NewRcIter::{next,abort,drop}", "RcInner::alloc", "RcInner::increment_weak"],
@@ -243,7 +243,7 @@ PROPS["C10"] = dict(
 )
 PROPS["C19"] = dict(
     title="Eq/Ord/Hash of Rc and Snapshot follow the referent", level="proof",
-    modules=["utils_rg_h.rs", "internal_h.rs", "strong_h.rs"], contract_groups=[],
+    modules=["utils_rg_h.rs", "internal_cut_h.rs", "strong_h.rs"], contract_groups=[],
     kani=dict(quick=_h("strong_h.rs", _C19)),
     kani_flags=_FAST,
     loops="hashing writes <= 24 bytes into the recording Hasher: unwound 26 with unwinding assertions on => complete",
@@ -254,12 +254,12 @@ PROPS["C19"] = dict(
     assumptions=["pointers range over {null, A, B} x all tags x all timestamps with symbolic payloads"],
 )
 # C11 and C12 gain the wrappers / the decision site
-PROPS["C11"]["modules"] = ["pointers_h.rs", "utils_rg_h.rs", "internal_h.rs", "strong_h.rs", "weak_h.rs"]
+PROPS["C11"]["modules"] = ["pointers_h.rs", "utils_rg_h.rs", "internal_cut_h.rs", "strong_h.rs", "weak_h.rs"]
 PROPS["C11"]["kani"]["quick"] += _h("strong_h.rs", ["c11_rc_snapshot_tags", "l2_rc_new_deref"]) + _h("weak_h.rs", ["c11_weak_tags"])
 PROPS["C11"]["functions_under_contract"] += ["Rc/Snapshot/Weak/WeakSnapshot::{tag,with_tag,is_null,ptr_eq}", "Rc/Snapshot::as_ref"]
 PROPS["C11"]["expected_obligations"] += ["C11.rc.with_tag_truncates_keeps_address_and_timestamp", "C11.weak.with_tag_truncates_keeps_address_and_timestamp", "C11.rc_as_ref.ignores_tag_and_timestamp"]
 PROPS["C11"]["assumptions"] += ["pointer formatting ({:p}): the impls are the one-liner Pointer::fmt(&self.as_raw(), f), whose argument is covered by the as_raw contract; core::fmt itself is not taken through CBMC"]
-PROPS["C12"]["modules"] = ["utils_state_h.rs", "utils_dispose_h.rs", "internal_h.rs"]
+PROPS["C12"]["modules"] = ["utils_state_h.rs", "utils_dispose_h.rs", "internal_cut_h.rs"]
 PROPS["C12"]["kani"]["quick"] += _h("utils_dispose_h.rs", ["dispose_chain_level", "dispose_leaf_any_depth"])
 PROPS["C12"]["fast_harnesses"] = _h("utils_dispose_h.rs", ["dispose_chain_level", "dispose_leaf_any_depth"])
 PROPS["C12"]["expected_obligations"] += ["C12.site.immediate_only_if_stamp_old_enough", "C12.site.recent_only_if_stamp_not_old_enough", "C02.cascade.child_stamp_is_newest_of_parent_link_child"]
@@ -287,7 +287,7 @@ PROPS["C13"] = dict(
     title="deferred work never runs while a critical section active at deferral is active", level="other",
     modules=_L3M, contract_groups=_L3G,
     kani=dict(quick=_h("epoch_h.rs", ["c13_expiry_arith", "c14_epoch_wrapping_sub", "c14_epoch_twin"]) + _h(_INT, ["c13_is_expired", "c13_is_expired_x", "c16_pin", "c16_unpin", "c13_try_advance",
-              "c14_try_advance_monotone", "c13_push_bag", "c13_collect", "c15_defer", "c15_flush"])),
+              "c14_try_advance_monotone", "c13_push_bag", "c13_collect", "c15_defer", "c15_flush", "c16_repin"])),
     kani_flags=_FAST,
     loops="pin's validation loop: environment advances the clock between its accesses (budget B), unwound B+4 with unwinding assertions on (stutter lemma); registry scan and bag loops: bounded (see bounded)",
     bounded=["Global::collect: global queue of <= 2 sealed bags (queue abstracted by its C17 contract stub)", "Global::try_advance: registry of 2 hand-built participants", "bags of <= 2 functions"],
@@ -372,4 +372,14 @@ PROPS["C18"] = dict(
     explanation="BOUNDED sequential contract only: a traversal that ends without Stalled returned every unmarked entry exactly once in order; marked entries are unlinked and finalized exactly once; insert makes the new entry reachable and keeps all others; "
                 "delete sets only the mark; try_advance consults every registered participant. Concurrent registration/removal during traversal is not claimed.",
 )
+# Harnesses that bound the SIZE of a data structure (bags, queue, registry, N of a const generic):
+# complete for the stated size (unwinding assertions on), but a bounded stand-in w.r.t. the property's
+# "every size" - reported separately in the evidence and never counted as proved-without-bound.
+BOUNDED_HARNESSES = {
+    "c13_collect": "global queue of <= 2 sealed bags", "c13_try_advance": "registry of 2 participants", "c14_try_advance_monotone": "registry of 2 participants",
+    "c15_bag": "bag capacity 3", "c15_defer": "bag capacity 2", "c15_flush": "bag capacity 2", "c15_finalize": "bag capacity 2", "c13_push_bag": "bag of <= 2 functions",
+    "c17_queue_sequential": "queue length <= 3, sequential", "c18_iter_sequential": "registry of <= 3 entries, sequential", "c18_insert_delete": "registry of <= 3 entries, sequential",
+    "c10_new_many_0": "N = 0", "c10_new_many_1": "N = 1", "c10_new_many_2": "N = 2", "c10_new_many_3": "N = 3", "c10_new_many_8": "N = 8",
+    "c10_weak_many_0": "N = 0", "c10_weak_many_1": "N = 1", "c10_weak_many_3": "N = 3", "c10_weak_many_8": "N = 8",
+}
 DEV = ("RG", "L2S", "L2W", "DISP", "EP", "L3", "DEFD", "L3B", "Q", "LST")
